@@ -6,7 +6,7 @@
 # Confirmed mutants are stored as /verif/seeded/<id>-m<k>/ {patch.diff, demo, meta.json}.
 export GOFLAGS=-mod=mod GOPROXY=off GOSUMDB=off GOTOOLCHAIN=local
 for id in "$@"; do
- for md in /tmp/wt-$id/MUTANTS/m*/; do
+ for md in ${WTPREFIX:-/tmp/wt-}$id/MUTANTS/m*/; do
   k=$(basename $md)
   out=/verif/seeded/$id-$k
   wt=/var/tmp/confirm-$id-$k
@@ -18,7 +18,7 @@ for id in "$@"; do
     git apply $md/patch.diff
     go build ./... >/dev/null 2>&1 || { echo "BUILDFAIL"; exit 0; }
     if ! go test -vet=off -count=1 ./... > $wt/.suite.log 2>&1; then echo "SUITEFAIL"; exit 0; fi
-    demo=$(ls $md/zz_demo_*_test.go 2>/dev/null | head -1)
+    demo=$(ls $md/zz_demo*_test.go 2>/dev/null | head -1)
     [ -z "$demo" ] && { echo "NODEMO"; exit 0; }
     pkg=$(grep -m1 '^package ' $demo | awk '{print $2}')
     # candidate dirs: directories of files in the patch first, then any dir whose package name matches
@@ -46,7 +46,7 @@ for id in "$@"; do
     DEMO*with=1\ without=0*|DEMO*with=2\ without=0*)
       mkdir -p $out
       cp $md/patch.diff $out/patch.diff
-      cp $md/zz_demo_*_test.go $out/ 2>/dev/null
+      cp $md/zz_demo*_test.go $out/ 2>/dev/null
       cp $md/README.md $out/README.md 2>/dev/null
       dir=$(echo "$res" | sed 's/.*dir=\([^ ]*\).*/\1/')
       python3 - "$id" "$k" "$dir" "$out" "$res" <<'PY'
